@@ -318,6 +318,16 @@ SENTQ_ORDER_OK = {
     ("transports::sctp::SctpInner::maybe_send_tlp_probe", "rev"): "picks some outstanding chunk as the tail-loss probe; any outstanding chunk is a valid probe",
 }
 
+# how many sites of each reviewed (function, method) were read; one more is a new, unreviewed access
+SENTQ_ORDER_COUNT = {
+    ("transports::sctp::oldest_outstanding_tsn", "next"): 2,
+    ("transports::sctp::oldest_outstanding_tsn", "range"): 1,
+    ("transports::sctp::apply_sack_to_sent_queue", "range"): 3,
+    ("transports::sctp::SctpInner::update_advanced_peer_ack_point", "range"): 2,
+    ("transports::sctp::SctpInner::handle_timeout", "for..break"): 1,
+    ("transports::sctp::SctpInner::maybe_send_tlp_probe", "rev"): 1,
+}
+
 
 def r13_6(ctx):
     """sent_queue is a BTreeMap keyed by the raw u32 TSN: its order is not TSN order while the outstanding TSNs
@@ -325,6 +335,7 @@ def r13_6(ctx):
     whole-map sweep (for-loop without early exit) is order independent and always allowed."""
     r = RuleResult("R13.6", "K3", "no map-order dependent access to the TSN-keyed sent queue outside the reviewed list")
     n = 0
+    seen = {}
     for b in ctx.facts.bodies(prefix="transports::sctp::"):
         if "::tests::" in b.name:
             continue
@@ -359,8 +370,13 @@ def r13_6(ctx):
             else:
                 key = (fn, m)
             n += 1
-            if key in SENTQ_ORDER_OK:
+            seen[key] = seen.get(key, 0) + 1
+            if key in SENTQ_ORDER_OK and seen[key] <= SENTQ_ORDER_COUNT.get(key, 1):
                 r.ok({"site": b.where(bi), "access": m, "reviewed": SENTQ_ORDER_OK[key][:80]})
+            elif key in SENTQ_ORDER_OK:
+                r.violate(b.name, "order:%s:extra" % m, b.where(bi),
+                          "one more map-order dependent access (%s) to the TSN-keyed sent queue than the %d reviewed in this function: a range or "
+                          "head/tail query by raw key misses the records on the other side of the 2^32 roll-over" % (m, SENTQ_ORDER_COUNT.get(key, 1)))
             else:
                 r.violate(b.name, "order:%s" % m, b.where(bi),
                           "map-order dependent access (%s) to the TSN-keyed sent queue: the first/last/neighbouring key is not the "
@@ -447,6 +463,8 @@ def r13_8(ctx):
                if p and p.endswith(("BTreeMap::<K, V, A>::remove", "BTreeMap::<K, V, A>::retain", "BTreeMap::<K, V, A>::clear", "BTreeMap::<K, V, A>::pop_first"))
                and t["a"] and mir.has_field(b.term_operand(t["a"][0]), "received_queue")]
         ins = [bi for bi, t, p in b.calls() if p and p.endswith("BTreeMap::<K, V, A>::insert") and t["a"] and mir.has_field(b.term_operand(t["a"][0]), "received_queue")]
+        ins += [bi for bi, t, p in b.calls() if p and p.split("::")[-1] in ("or_insert", "or_insert_with") and t["a"] and
+                mir.has(b.term_operand(t["a"][0]), lambda x: x[0] == "call" and x[1].endswith("::entry") and mir.has_field(x, "received_queue"))]
         if not rem and not ins:
             continue
         r.scope.append(b.name)
